@@ -113,6 +113,92 @@ impl Spec {
         let flp = (self.gadget_degree() as f64) * (pp - 1.0) / (f - pp);
         circ + flp
     }
+    /// Encoding of an integer in `[0,max]` with the draft's offset-last-bit scheme.
+    pub fn enc_int(v: u128, max: u128) -> Vec<u128> {
+        let b = bits_of(max);
+        let last_weight = max - ((1u128 << (b - 1)) - 1);
+        let threshold = (1u128 << (b - 1)) - 1;
+        let (rest, hi) = if v > threshold { (v - last_weight, 1) } else { (v, 0) };
+        let mut out: Vec<u128> = (0..b - 1).map(|i| (rest >> i) & 1).collect();
+        out.push(hi);
+        out
+    }
+    /// A few valid encodings (simplest first).
+    pub fn valid_examples(&self) -> Vec<Vec<u128>> {
+        match self {
+            Spec::Count => vec![vec![0], vec![1]],
+            Spec::Deg3 { len } => vec![vec![0; *len], vec![2; *len], (0..*len).map(|i| (i % 3) as u128).collect()],
+            Spec::Sum { max } => {
+                let mut v = vec![Self::enc_int(0, *max), Self::enc_int(*max, *max), Self::enc_int(max / 2, *max)];
+                v.dedup();
+                v
+            }
+            Spec::SumVec { max, len, .. } => {
+                let f = |g: &dyn Fn(usize) -> u128| (0..*len).flat_map(|i| Self::enc_int(g(i), *max)).collect::<Vec<_>>();
+                vec![f(&|_| 0), f(&|_| *max), f(&|i| (i as u128 * 5 + 1) % (max + 1))]
+            }
+            Spec::Histogram { len, .. } => {
+                let mut v = vec![(0..*len).map(|i| (i == 0) as u128).collect::<Vec<_>>(), (0..*len).map(|i| (i == len - 1) as u128).collect()];
+                v.dedup();
+                v
+            }
+            Spec::Multihot { len, max_weight, .. } => {
+                let f = |w: usize| {
+                    let mut x: Vec<u128> = (0..*len).map(|i| (i < w) as u128).collect();
+                    x.extend(Self::enc_int(w as u128, *max_weight as u128));
+                    x
+                };
+                let mut v = vec![f(0), f((*max_weight).min(*len)), f(1.min(*len))];
+                v.dedup();
+                v
+            }
+            Spec::L1 { max, len, .. } => {
+                let f = |vals: Vec<u128>| {
+                    let s: u128 = vals.iter().sum();
+                    let mut x: Vec<u128> = vals.iter().flat_map(|v| Self::enc_int(*v, *max)).collect();
+                    x.extend(Self::enc_int(s, *max));
+                    x
+                };
+                let mut first = vec![0; *len];
+                first[0] = *max;
+                let mut spread = vec![0; *len];
+                let mut rest = *max;
+                for x in spread.iter_mut() {
+                    let t = rest.min(1);
+                    *x = t;
+                    rest -= t;
+                }
+                let mut v = vec![f(vec![0; *len]), f(first), f(spread)];
+                v.dedup();
+                v
+            }
+        }
+    }
+    /// Is `out` the truncation of some valid encoding (the aggregatable outputs the type admits)?
+    pub fn valid_output(&self, out: &[u128], p: u128) -> bool {
+        let _ = p;
+        match self {
+            Spec::Count => out.len() == 1 && out[0] <= 1,
+            Spec::Deg3 { len } => out.len() == *len && out.iter().all(|v| *v <= 2),
+            Spec::Sum { max } => out.len() == 1 && out[0] <= *max,
+            Spec::SumVec { max, len, .. } => out.len() == *len && out.iter().all(|v| v <= max),
+            Spec::Histogram { len, .. } => out.len() == *len && out.iter().all(|v| *v <= 1) && out.iter().sum::<u128>() == 1,
+            Spec::Multihot { len, max_weight, .. } => out.len() == *len && out.iter().all(|v| *v <= 1) && out.iter().sum::<u128>() <= *max_weight as u128,
+            Spec::L1 { max, len, .. } => out.len() == *len && out.iter().all(|v| v <= max) && out.iter().sum::<u128>() <= *max,
+        }
+    }
+    /// Algorithm identifier of the Prio3 instantiation.
+    pub fn alg_id(&self) -> u32 {
+        match self {
+            Spec::Count => 1,
+            Spec::Sum { .. } => 2,
+            Spec::SumVec { .. } => 3,
+            Spec::Histogram { .. } => 4,
+            Spec::Multihot { .. } => 5,
+            Spec::L1 { .. } => 7,
+            Spec::Deg3 { .. } => 0xFFFF_1234,
+        }
+    }
     /// Truncation of a valid encoding (the aggregatable output), as residues.
     pub fn truncate(&self, x: &[u128], p: u128) -> Vec<u128> {
         match self {
